@@ -235,7 +235,7 @@ impl FlushHold {
         s.0 = false;
         self.cv.notify_all();
     }
-    fn on_flush(&self) {
+    pub(crate) fn on_flush(&self) {
         let mut s = self.st.lock().unwrap();
         if !s.0 {
             return;
@@ -254,6 +254,38 @@ impl FlushHold {
 pub static REPORTS_SEEN: AtomicU64 = AtomicU64::new(0);
 
 /// recording, gated, result-scripted stream
+/// `metrics::Recorder` for a queue's own metrics whose `metrique_queue_len` histogram record can be
+/// held (the same device as `FlushHold`): the writer thread is then stopped INSIDE the recorder
+/// call it makes at the end of a flush interval, between taking its queue-length sample and
+/// looking at the shutdown flag.
+pub struct HeldRecorder {
+    pub hold: Arc<FlushHold>,
+}
+struct HoldHist(Arc<FlushHold>);
+impl metrics_024::HistogramFn for HoldHist {
+    fn record(&self, _value: f64) {
+        self.0.on_flush();
+    }
+}
+impl metrics_024::Recorder for HeldRecorder {
+    fn describe_counter(&self, _: metrics_024::KeyName, _: Option<metrics_024::Unit>, _: metrics_024::SharedString) {}
+    fn describe_gauge(&self, _: metrics_024::KeyName, _: Option<metrics_024::Unit>, _: metrics_024::SharedString) {}
+    fn describe_histogram(&self, _: metrics_024::KeyName, _: Option<metrics_024::Unit>, _: metrics_024::SharedString) {}
+    fn register_counter(&self, _: &metrics_024::Key, _: &metrics_024::Metadata<'_>) -> metrics_024::Counter {
+        metrics_024::Counter::noop()
+    }
+    fn register_gauge(&self, _: &metrics_024::Key, _: &metrics_024::Metadata<'_>) -> metrics_024::Gauge {
+        metrics_024::Gauge::noop()
+    }
+    fn register_histogram(&self, key: &metrics_024::Key, _: &metrics_024::Metadata<'_>) -> metrics_024::Histogram {
+        if key.name() == "metrique_queue_len" {
+            metrics_024::Histogram::from_arc(Arc::new(HoldHist(self.hold.clone())))
+        } else {
+            metrics_024::Histogram::noop()
+        }
+    }
+}
+
 pub struct BqStream {
     pub results: Vec<SRes>,
     pub flush_ok: Vec<bool>,
